@@ -242,7 +242,7 @@ struct Latch {
 
 #[derive(Default)]
 pub struct C13 {
-    own: OwnModel,
+    pub own: OwnModel,
     st: Vec<Latch>,
 }
 
@@ -259,7 +259,14 @@ fn pull_window(srtt: f64, ceiling: u64) -> u64 {
 }
 
 impl C13 {
-    fn judge(&mut self, s: &SelectObs, idx: u64, out: &mut MonOut) {
+    /// Size the per-link latch bookkeeping (engine L adapter).
+    pub fn resize(&mut self, n: usize) {
+        if self.st.len() != n {
+            self.st = vec![Latch::default(); n];
+        }
+    }
+
+    pub fn judge(&mut self, s: &SelectObs, idx: u64, out: &mut MonOut) {
         let guard = s.cfg.stall_deselect;
         for i in 0..s.pre.len() {
             let pre = &s.pre[i];
@@ -419,7 +426,8 @@ impl KMonitor for C13 {
 
 #[derive(Default)]
 pub struct C11 {
-    own: OwnModel,
+    pub own: OwnModel,
+    skip_idempotence: bool,
 }
 
 const EPS: f64 = 1e-9;
@@ -440,8 +448,28 @@ impl KMonitor for C11 {
     }
     fn on_event(&mut self, ctx: &KCtx<'_>, out: &mut MonOut) {
         for s in &ctx.eff.selects {
+            self.judge_select(s, ctx.idx, out);
+        }
+        self.own.observe(ctx);
+    }
+}
+
+impl C11 {
+    /// Engine L: the post-state already contains the routed packet, so the call cannot be repeated on it.
+    pub fn judge_select_no_idempotence(&mut self, s: &SelectObs, idx: u64, out: &mut MonOut) {
+        self.skip_idempotence = true;
+        self.judge_select(s, idx, out);
+        self.skip_idempotence = false;
+    }
+
+    pub fn judge_select(&mut self, s: &SelectObs, idx: u64, out: &mut MonOut) {
+        struct Ctx {
+            idx: u64,
+        }
+        let ctx = Ctx { idx };
+        loop {
             if s.cfg.mode.is_classic() {
-                continue;
+                break;
             }
             out.stats.inc("c11.decisions");
             let n = s.pre.len();
@@ -496,18 +524,18 @@ impl KMonitor for C11 {
                     out.violate("C11.factor_range", "score", ctx.idx, format!("link {i}: score {}", score[i]));
                 }
             }
-            let Some(ch) = s.result else { continue };
+            let Some(ch) = s.result else { break };
             if ch >= n {
-                continue;
+                break;
             }
             out.nontrivial = true;
             if !elig[ch] {
                 out.violate("C11.gates", "skipped_link_chosen", ctx.idx, format!("link {ch} is ineligible (timed out / registering / stall-gated) but was chosen"));
-                continue;
+                break;
             }
             if any_unconstrained && capped[ch] {
                 out.violate("C11.gates", "capped_link_chosen", ctx.idx, format!("link {ch} is over its in-flight cap while an unconstrained link exists"));
-                continue;
+                break;
             }
             if capped.iter().any(|c| *c) {
                 out.probe("c11.cap_exceeded_somewhere");
@@ -551,14 +579,17 @@ impl KMonitor for C11 {
                     }
                 }
             }
+            if self.skip_idempotence {
+                break;
+            }
             // idempotence: the same call on the resulting state returns the same uplink
             let mut again: Vec<SrtlaConnection> = s.post.clone();
             let r2 = select_connection_idx(&mut again, s.result, s.now, &s.cfg);
             if r2 != s.result {
                 out.violate("C11.idempotence", "", ctx.idx, format!("selection returned {:?}, repeated on the unchanged state it returned {:?}", s.result, r2));
             }
+            break;
         }
-        self.own.observe(ctx);
     }
 }
 
